@@ -8,7 +8,8 @@ from ..sandbox import subtree
 ID = "C04"
 LEVEL = "exploration"
 RULE = ("Three generated dimensions. (1) Sequential: N in 2..6 (and >= 101 through a trash "
-        "pre-populated with foo, foo_1..foo_99) puts of same-named entries of mixed kinds into one "
+        "pre-populated with foo, foo_1..foo_99; 'dense' cells additionally fill 7/8 of the 65536 "
+        "pseudo-random suffixes with payloads without info) puts of same-named entries of mixed kinds into one "
         "trash dir, with pre-existing orphans (payload without info, also a dangling-symlink "
         "payload; info without payload). (2) Concurrent with a harness-owned schedule: 2-3 real "
         "trash-put processes are gated by the interposer before every os-level operation on a "
@@ -53,6 +54,10 @@ def grid(tier):
                                       "segs": [[first, a], [(first + 1) % nproc, b], [first, 1000]]})
     for i in range(4 if tier == "quick" else 40):
         cells.append({"mode": "free", "k": 8, "scen": "same2", "round": i})
+    # >= 100 collisions (random suffixes) in a trash whose random name space is 7/8 full of
+    # payloads without info: a suffix that is drawn but not probed lands on one of them
+    for tk in (["home", "top_alt"] if tier == "quick" else ["home", "top_alt", "top_sticky"] * 4):
+        cells.append({"mode": "dense", "tkind": tk, "n": 3, "round": len(cells)})
     return cells
 
 
@@ -172,6 +177,8 @@ def run_case(case):
     mode = case["mode"]
     if mode == "seq":
         return run_seq(out, case)
+    if mode == "dense":
+        return run_dense(out, case)
     spec, tdir, srcs, prefixes = world(case["scen"])
     sandbox.build_world(spec)
     before = sandbox.snapshot()
@@ -211,6 +218,70 @@ def run_case(case):
         out.key = [case["scen"], mode, shape if mode == "sched" else case.get("round")]
         out.sample = {"scenario": case["scen"], "schedule_segments": case.get("segs"),
                       "executed_steps": [[s[0], s[1], s[2]] for s in steps][:60], "exit_codes": codes}
+    return out
+
+
+def run_dense(out, case):
+    import os
+    home, uid, name = "/home/u", 1000, "foo"
+    tk = case["tkind"]
+    nodes = []
+    if tk == "home":
+        tdir, root = home + "/.local/share/Trash", home
+    elif tk == "top_alt":
+        tdir, root = "/vol/.Trash-%d" % uid, "/vol"
+    else:
+        nodes += gen.topdir_nodes("/vol", uid, "sticky", "absent")
+        tdir, root = "/vol/.Trash/%d" % uid, "/vol"
+    srcs = []
+    for i in range(case["n"]):
+        p = root + "/s%d/%s" % (i, name)
+        nodes.append({"p": p, "t": "f", "c": "dense %d" % i})
+        srcs.append(p)
+    nodes += [{"p": tdir + "/files", "t": "d", "m": 0o700}, {"p": tdir + "/info", "t": "d", "m": 0o700}]
+    for j in range(100):
+        nm = name if j == 0 else "%s_%d" % (name, j)
+        nodes += gen.trashed_pair_nodes(tdir, nm, b"/old/foo", "2001-01-01T00:00:00", content="old %d" % j)
+    spec = {"vols": ["/vol"], "nodes": nodes, "env": {"HOME": home}, "uid": uid, "cwd": "/",
+            "now": "2022-02-02T02:02:02"}
+    sandbox.build_world(spec)
+    fdir = sandbox.wp(tdir + "/files")
+    dfd = os.open(fdir, os.O_RDONLY | os.O_DIRECTORY)
+    try:
+        for k in range(100, 65536):
+            if k % 8:
+                os.close(os.open("%s_%d" % (name, k), os.O_WRONLY | os.O_CREAT | os.O_EXCL, 0o600, dir_fd=dfd))
+    finally:
+        os.close(dfd)
+    before = sandbox.snapshot()
+    codes = [runner.run(spec, "trash-put", ["--", s_]).code for s_ in srcs]
+    after = sandbox.snapshot()
+    tags = dict(mode="dense", tkind=tk)
+    changed = [p_ for p_, n_ in before.items() if p_.startswith(tdir + "/") and
+               (p_ not in after or sandbox.sig(after[p_], mtime=(n_.t != "d")) != sandbox.sig(n_, mtime=(n_.t != "d")))]
+    if changed:
+        out.fail("old_entry_damaged", "pre-existing %s were replaced or lost (payloads without "
+                 ".trashinfo at pseudo-random suffixes)" % changed[:3], **tags)
+    new_i = sorted(p_ for p_ in after if p_ not in before and p_.startswith(tdir + "/info/"))
+    new_p = sorted(p_ for p_ in after if p_ not in before and p_.startswith(tdir + "/files/"))
+    succ = sum(1 for c_ in codes if c_ == 0)
+    if len(new_i) != succ or [x[len(tdir) + 6:-10] for x in new_i] != [x[len(tdir) + 7:] for x in new_p]:
+        out.fail("success_without_pair", "%d successful puts but new infos %s / new payloads %s" % (
+            succ, [x.rsplit("/", 1)[1] for x in new_i], [x.rsplit("/", 1)[1] for x in new_p]), **tags)
+    else:
+        want = sorted(sandbox.sig(before[s_], mtime=False) for s_, c_ in zip(srcs, codes) if c_ == 0)
+        got = sorted(sandbox.sig(after[x], mtime=False) for x in new_p)
+        if want != got:
+            out.fail("success_without_pair", "new payloads do not hold the trashed sources", **tags)
+    for s_, c_ in zip(srcs, codes):
+        if c_ == 0 and s_ in after:
+            out.fail("source_remains", "trash-put of %s exited 0 but the source is still there" % s_, **tags)
+    out.classes += ["dense:" + tk, "successes:%d" % succ]
+    if succ >= 2:
+        out.key = ["dense", tk, case.get("round")]
+        out.sample = {"mode": "dense", "tkind": tk, "pre-existing pairs": 100,
+                      "payloads without info": sum(1 for k in range(100, 65536) if k % 8),
+                      "new": [x.rsplit("/", 1)[1] for x in new_p], "exit_codes": codes}
     return out
 
 
